@@ -4,7 +4,13 @@ C07 — attestations surface only from trusted, finalised proofs.
 Generic theorems (every `Crypto B`) about `verify`, `add`, `getCaveats` (typed lookup, recursing
 into wrappers) of Token/Macaroon.lean and Caveat/Prohibits.lean.  The model is the model of the
 code after the repair of F1 (wrappers containing an attestation are refused by `verify` and `Add`).
-Tie: family `attest`.
+Which caveat types are attestations / wrappers is tied to the registry regenerated from /repo
+(`registry_attestation_flags`, `isAttestation_by_type`): a build-time obligation.
+End to end against the attacker (Props/Symbolic.lean): `attestation_no_forgery` (conditional on `hT`) and,
+over honest runs only, `run_attestation_no_forgery` / `run_attestation_provenance` (`hT` derived from
+the run by the box-origin invariant of Lemmas/BoxOrigin.lean, for third parties that are honest in
+the sense of `TrustedHonest`).
+Tie: family `attest`; Generated/Registry.lean.
 -/
 import Macaroon.Lemmas.Token
 import Macaroon.Generated.Registry
